@@ -505,6 +505,7 @@ def dedupConsecutive : List Nat → List Nat
 
 /-- `MinimizerSelector.select_from_kmers`. -/
 def minimizerSelect (w : Nat) (p : Perm) (kmers : List Nat) : Except Err (List (Nat × Nat)) :=
+  if w < 2 then .error .valueError else
   match p.apply kmers with
   | .error e => .error e
   | .ok ord =>
